@@ -231,6 +231,40 @@ func grpSrc(fam string, n int) (string, []string) {
 		return "local x, y, c = 1, 2, 0\nwhile c < 6 do\nlocal a, b, d = x, y, x\nc = c + a + b\nend\nrepeat\nlocal a, b = y, x\nc = c + a\nuntil c > 9\nreturn c\n", []string{"10"}
 	case "grp_moven_swap":
 		return "local a, b, c, d = 1, 2, 3, 4\na, b, c, d = d, c, b, a\nlocal e, f = a, b\nreturn a, b, c, d, e, f\n", []string{"4", "3", "2", "1", "4", "3"}
+	case "tfor_vars":
+		// n = 10*vars + shape: generic for with 1..8 loop variables and a body that uses no register
+		// above them (empty / break / test / local-to-local move / nested loop), so only TFORLOOP's
+		// implicit result range R(A+3)..R(A+2+C) reaches the top of the frame
+		vars, shape := n/10, n%10
+		names := rep(vars, func(i int) string { return fmt.Sprintf("v%d", i) }, ", ")
+		last := fmt.Sprintf("v%d", vars)
+		it := "local function it(s, c) if c < 3 then return c + 1" + strings.Repeat(", c + 1", 8) + " end end\n"
+		head := "for " + names + " in it, nil, 0 do\n"
+		body := ""
+		want := "3"
+		switch shape {
+		case 0:
+			body = ""
+		case 1:
+			body = "break\n"
+			want = "0"
+		case 2:
+			body = "if " + last + " == 2 then break end\n"
+			want = "1"
+		case 3:
+			body = "v1 = " + last + "\n"
+		case 4: // nested: the inner loop has as many variables again
+			inner := rep(vars, func(i int) string { return fmt.Sprintf("w%d", i) }, ", ")
+			body = "for " + inner + " in it, nil, 0 do end\n"
+		case 5: // inside a function with parameters and a vararg
+			return it + "local function f(p, ...)\nlocal n = 0\n" + head + "n = n + 1\nend\nreturn n\nend\nreturn f(1, 2, 3)\n", []string{"3"}
+		}
+		cnt := "n = n + 1\n"
+		if shape == 0 || shape == 1 {
+			// keep the body free of anything but the shape itself; count with a second loop
+			return it + "local n = 0\n" + head + body + "end\n" + "for " + names + " in it, nil, 0 do " + map[bool]string{true: "break", false: "n = n + 1"}[shape == 1] + " end\nreturn n\n", []string{want}
+		}
+		return it + "local n = 0\n" + head + body + cnt + "end\nreturn n\n", []string{map[bool]string{true: "1", false: "3"}[shape == 2]}
 	case "grp_moven_long":
 		return rep(n, func(i int) string { return fmt.Sprintf("local a%d = %d", i, i) }, "\n") + "\nlocal function f(...) return select('#', ...), (select(" + N + ", ...)) end\nreturn f(" +
 			rep(n, func(i int) string { return fmt.Sprintf("a%d", i) }, ", ") + ")\n", []string{N, N}
@@ -254,6 +288,11 @@ func adversarial(c *ctx, tier string) {
 		ladder[f] = []int{1}
 	}
 	ladder["grp_moven_long"] = []int{60, 90}
+	for vars := 1; vars <= 8; vars++ {
+		for shape := 0; shape <= 5; shape++ {
+			ladder["tfor_vars"] = append(ladder["tfor_vars"], vars*10+shape)
+		}
+	}
 	for _, f := range []string{"grp_setlist_move", "grp_setlist_moves", "grp_setlist_loadnil", "grp_setlist_label", "grp_setlist_if", "grp_setlist_loop",
 		"grp_setlist_closure", "grp_setlist_twice", "grp_setlist_open", "grp_setlist_arg"} {
 		ladder[f] = []int{120, 25551, 25553}
